@@ -16,7 +16,11 @@ use crate::render::{render, Spelling};
 use crate::rng::{mix, Rng};
 
 fn stdin_for(rng: &mut Rng) -> Vec<u8> {
-    match rng.below(6) {
+    match rng.below(9) {
+        // bytes that are not UTF-8: in the first line, in a later line (possibly never read), at the very end
+        6 => b"\xff\xfe first line is not text\nsecond\n".to_vec(),
+        7 => b"good\nalso good\nthird \xc3\x28 is not\nfourth\n".to_vec(),
+        8 => b"1\n2\n3\n4\n5\n6\n7\n8\n9\n10\n11\n12\ntrailing \xe2\x82".to_vec(),
         0 => Vec::new(),
         1 => b"one line, no final newline".to_vec(),
         2 => b"first\n\nthird after a blank\n".to_vec(),
